@@ -487,3 +487,46 @@ Fixpoint payload (segs : list seg) : str :=
   | Data l :: rest => l ++ payload rest
   | _ => []
   end.
+
+(* ------------------------------------------------------------------ the documented $-substitution (spec level) *)
+(* what one chunk of a .vnc file is sent as *)
+Definition subst_text (cfg : config) (params : str) (chunk : str) : option str :=
+  match subst_loop (S (length chunk)) cfg params chunk with
+  | Some ws => Some (concat ws)
+  | None => None
+  end.
+
+(* the documented variables and their values *)
+Definition var_table (cfg : config) (params : str) : list (str * str) :=
+  [ (v_WIDTH, z_dec (width cfg)); (v_HEIGHT, z_dec (height cfg));
+    (v_APPLETWIDTH, z_dec (width cfg)); (v_APPLETHEIGHT, z_dec (height cfg + 32));
+    (v_PORT, z_dec (port cfg)); (v_DESKTOP, desktop cfg);
+    (v_DISPLAY, host cfg ++ [c_colon] ++ z_dec (port cfg - 5900));
+    (v_USER, user_text cfg); (v_PARAMS, params) ].
+
+(* text without '$' and without NUL *)
+Definition plain (s : str) : Prop := Forall (fun c => c <> c_dollar /\ c <> 0) s.
+
+(* ------------------------------------------------------------------ rfbHttpCheckFds: accepting a connection *)
+Record hsock := { from_v6 : bool; nonblocking : bool }.
+
+(* [l4]/[l6]: which HTTP listener select() reports readable; [nb_ok]: result of rfbSetNonBlocking.
+   The connection is taken from the IPv4 listener if that is readable, otherwise from the IPv6 one;
+   after either branch the socket is made non-blocking, and closed if that fails. *)
+Definition accept_step (l4 l6 nb_ok : bool) : option hsock :=
+  if l4 || l6 then
+    let s := {| from_v6 := negb l4; nonblocking := false |} in
+    if nb_ok then Some {| from_v6 := from_v6 s; nonblocking := true |} else None
+  else None.
+
+Inductive call_result :=
+| Returned (r : list effect * status) (reads : nat)
+| Blocked.        (* read() on a blocking socket with nothing to read: the event loop stalls *)
+
+(* httpProcessInput on an accepted socket: where a non-blocking socket makes read() fail with EAGAIN
+   (the end of the segment list), a blocking one never returns *)
+Definition http_call (sock : hsock) (fs : str -> option str) (v : variant) (cfg : config) (segs : list seg) : call_result :=
+  match http_process_n fs v cfg segs with
+  | ((e, Again), n) => if nonblocking sock then Returned (e, Again) n else Blocked
+  | (r, n) => Returned r n
+  end.
